@@ -48,7 +48,14 @@ RECURSIVE = [
     'Deep ::= SEQUENCE { a SEQUENCE { b SEQUENCE { c SEQUENCE { d Deep OPTIONAL } } } }',
     'Ee ::= SET { s SET OF Ee, t [5] Ee OPTIONAL }',
     'Pp ::= CHOICE { q Qq, r NULL }  Qq ::= CHOICE { p Pp, s BOOLEAN }',
+    'Folder ::= SEQUENCE { content SET { index Catalogue OPTIONAL } }  Catalogue ::= SEQUENCE { root Folder OPTIONAL }',
+    'Fa ::= SEQUENCE { inner SEQUENCE { deep CHOICE { leaf NULL, up [1] Fb } } }  Fb ::= SET { back Fa OPTIONAL, n INTEGER }',
+    'Ra ::= SEQUENCE { b Rb OPTIONAL }  Rb ::= SET { c Rc OPTIONAL }  Rc ::= SEQUENCE { a Ra OPTIONAL, l SEQUENCE OF Rb }',
+    'Ga ::= SET { s SET { t SET { u Ga OPTIONAL } } }',
 ]
+KEYWORDS = ('as break const continue crate else enum extern false fn for if impl in let loop match mod move mut pub ref return self Self static '
+            'struct super trait true type unsafe use where while async await dyn abstract become box do final macro override priv typeof unsized '
+            'virtual yield try union').split()
 
 
 KNOWN_PROBES = [
@@ -194,6 +201,22 @@ def build_cases(ck):
         for tagging in (['AUTOMATIC TAGS'] if quick or 'Pp ::=' in body else ['AUTOMATIC TAGS', 'EXPLICIT TAGS', '']):
             # (mutually recursive untagged CHOICEs have no well-defined tag sets outside AUTOMATIC TAGS)
             add(['Mr%d DEFINITIONS %s ::= BEGIN\n%s\nEND\n' % (i, tagging, body.replace('  ', '\n'))], 'recursive')
+    # names that are Rust keywords, as component, alternative and enumeral
+    kws = [k for k in KEYWORDS if k[0].islower()]
+    for i in range(0, len(kws), 6):
+        chunk = kws[i:i + 6]
+        body = ('Kw%d ::= SEQUENCE { %s }\nKc%d ::= CHOICE { %s }\nKe%d ::= ENUMERATED { %s }'
+                % (i, ', '.join('%s INTEGER OPTIONAL' % k for k in chunk), i, ', '.join('%s [%d] NULL' % (k, j) for j, k in enumerate(chunk)),
+                   i, ', '.join(chunk)))
+        add(['Mw%d DEFINITIONS AUTOMATIC TAGS ::= BEGIN\n%s\nEND\n' % (i, body)], 'keyword-names')
+    # CHOICE values, constant and not, under every configuration (incl. no_std)
+    for k in range(8 if quick else 60):
+        body = ('Lbl%d ::= CHOICE { text UTF8String, num INTEGER, small INTEGER (0..9), flag BOOLEAN, oct OCTET STRING }\n'
+                'g%d Lbl%d ::= text : "hello"\nn%d Lbl%d ::= num : %d\nt%d Lbl%d ::= small : 4\nf%d Lbl%d ::= flag : TRUE\no%d Lbl%d ::= oct : \'AB\'H\n'
+                'Hold%d ::= SEQUENCE { d1 Lbl%d DEFAULT num : 7, d2 Lbl%d DEFAULT flag : FALSE }'
+                % (k, k, k, k, k, rng.randint(-9, 10 ** 12), k, k, k, k, k, k, k, k, k))
+        cases.append({'op': 'compile', 'sources': ['Mq%d DEFINITIONS AUTOMATIC TAGS ::= BEGIN\n%s\nEND\n' % (k, body)],
+                      'config': dict(config_of(rng), no_std_compliant_bindings=(k % 2 == 0)), 'text': True, '_fam': 'choice-values', '_tags': [], '_known': None})
     for slug, tagging, body in KNOWN_PROBES:
         add(['Mk DEFINITIONS %s ::= BEGIN\n%s\nEND\n' % (tagging, body)], 'known-probe', known=slug)
     return cases
